@@ -17,6 +17,7 @@ func init() {
 	verifHarnesses["HarnessC13Convert"] = HarnessC13Convert
 	verifHarnesses["HarnessC13Invalid"] = HarnessC13Invalid
 	verifHarnesses["HarnessC13Concurrent"] = HarnessC13Concurrent
+	verifHarnesses["HarnessC14Deep"] = HarnessC14Deep
 	verifHarnesses["HarnessC14Malformed"] = HarnessC14Malformed
 }
 
@@ -225,7 +226,7 @@ func HarnessC13Convert() {
 	for i := 0; i < ng; i++ {
 		g := updog.ResultGroup{Count: verifU64("count")}
 		for j := 0; j < nf; j++ {
-			g.Fields = append(g.Fields, updog.ResultField{Column: verifString("col", 1), Value: verifString("val", verifChoice("vlen", 2))})
+			g.Fields = append(g.Fields, updog.ResultField{Column: verifString("col", 1+verifChoice("clen", 2)), Value: verifString("val", verifChoice("vlen", 2))})
 		}
 		r.Groups = append(r.Groups, g)
 	}
@@ -392,6 +393,58 @@ func HarnessC13Concurrent() {
 	probe := &proto.QueryRequest{Queries: []*proto.Query{{Expr: pEq("a", "x")}}}
 	pr, perr := s.Query(context.Background(), probe)
 	verifAssert(perr == nil && pr != nil && len(pr.Results) == 1 && pr.Results[0].TotalCount == 2, "C14: a well-formed request after concurrent ones is not answered correctly")
+	idx.Close()
+	verifReach("end")
+}
+
+// HarnessC14Deep: a deeply nested request (40 levels of AND / OR / NOT around one comparison,
+// about a kilobyte on the wire) is answered — with a result, or with an error when the
+// comparison at the bottom names an unknown column — and the probe afterwards as well. The
+// work must stay proportional to the size of the request: a run that does not end within the
+// unwind bound is handed to the native replay, where not finishing is the violation.
+func HarnessC14Deep() {
+	path := verifTempPath("c14d.updog")
+	srvBuild(path)
+	var opts []updog.IndexOption
+	if verifBool("cache") {
+		opts = append(opts, updog.WithCache(updog.NewLRUCache(^uint64(0))))
+	}
+	idx, err := updog.OpenIndex(path, opts...)
+	if err != nil {
+		panic(err)
+	}
+	s := &server{idx: idx}
+	unknown := verifBool("unknown-column-at-the-bottom")
+	e := pEq("a", "x")
+	if unknown {
+		e = pEq("nosuch", "x")
+	}
+	nots := 0
+	style := verifChoice("nesting", 3)
+	for d := 0; d < 40; d++ {
+		switch (d + style) % 3 {
+		case 0:
+			e = pAnd(e, pNot(pEq("b", "nope"))) // AND with all rows
+		case 1:
+			e = pOr(e, pEq("b", "nope")) // OR with no row
+		default:
+			e = pNot(e)
+			nots++
+		}
+	}
+	resp, qerr := s.Query(context.Background(), &proto.QueryRequest{Queries: []*proto.Query{{Expr: e}}})
+	if unknown {
+		verifAssert(qerr != nil && resp == nil, "C14: a deeply nested request over an unknown column must be answered with an error")
+	} else {
+		want := uint64(2) // rows with a = x; an odd number of NOTs leaves the other 3 of 5 rows
+		if nots%2 == 1 {
+			want = 3
+		}
+		verifAssert(qerr == nil && resp != nil && len(resp.Results) == 1 && resp.Results[0].TotalCount == want, "C14: a deeply nested request is not answered correctly")
+	}
+	probe := &proto.QueryRequest{Queries: []*proto.Query{{Expr: pEq("a", "x")}}}
+	pr, perr := s.Query(context.Background(), probe)
+	verifAssert(perr == nil && pr != nil && len(pr.Results) == 1 && pr.Results[0].TotalCount == 2, "C14: a well-formed request after a deeply nested one is not answered correctly")
 	idx.Close()
 	verifReach("end")
 }
